@@ -282,8 +282,221 @@ def ulog_compare(ctx, pa, pb):
     ctx.add("unclaimed_inputs_compared_across_heap_fills", n)
 
 
+# ---- direction (B): long random texts recorded on the implementation, validated by TLC -------------------------------
+TKEYS = ["ka", "kb", "k_c", "K9"]
+WORDS = ["x", "foo", "Bar_9", "a.b", "-", "/usr/lib", "0", "zz=1", "q,r", "#", "{}", "()", "a)b"]
+
+
+def gen_env(rnd, big):
+    names = ["HOME", "A", "B1", "LONG_NAME_7", "x_y", "E"]
+    env = []
+    for nm in names:
+        r = rnd.random()
+        if r < 0.25:
+            continue                                  # unset
+        if r < 0.35:
+            env.append((nm, ""))                      # set but empty
+        elif big and r < 0.6:
+            env.append((nm, "".join(rnd.choice("abcdefgh/._-") for _ in range(rnd.choice([500, 2047, 4096, 9000])))))
+        else:
+            env.append((nm, "".join(rnd.choice("abc/XYZ_.$~%'\\ ") for _ in range(rnd.randint(1, 12)))))
+    return env
+
+
+def gen_piece(rnd, env, depth=0, unclaimed_ok=False):
+    names = ["HOME", "A", "B1", "LONG_NAME_7", "x_y", "E", "NOPE"]
+    r = rnd.random()
+    if r < 0.30:
+        return rnd.choice(WORDS) + rnd.choice(["", " ", "  ", "\t"])
+    if r < 0.38:
+        return "\\" + rnd.choice("nrtbfaveNRTE\\xz.\"'$~%")
+    if r < 0.46 and depth == 0:
+        return "~"
+    if r < 0.58:
+        nm = rnd.choice(names)
+        return rnd.choice(["$%s", "${%s}", "$(%s)"]) % nm + rnd.choice(["", "", " ", "/", "-"])
+    if r < 0.64 and depth == 0:
+        inner = "".join(rnd.choice(["w ", "$A", "~", "\\'", "\\n", "\\\\", '"', "${B1}", "x"]) for _ in range(rnd.randint(0, 6)))
+        return "'" + inner + "'"
+    if r < 0.70 and depth == 0:
+        inner = "".join(rnd.choice(["w ", "$A", "~", "\\t", "\\\"", "${B1}", "x", "%version()"]) for _ in range(rnd.randint(0, 6)))
+        return '"' + inner + '"'
+    if r < 0.94:
+        k = rnd.choice(TKEYS)
+        f = rnd.random()
+        if f < 0.30:
+            return "%%get(%s)" % k
+        if f < 0.40:
+            return "%%get(%s %s)" % (k, rnd.choice(["dflt", "d2"]))
+        if f < 0.62:
+            v = rnd.choice(["v1", "longer_value", "%get(" + rnd.choice(TKEYS) + ")" + "z", "$A" if depth == 0 else "w", "%version()"])
+            return "%%put(%s %s)" % (k, v)
+        if f < 0.70:
+            return rnd.choice(["%version()", "%appname()", "%VERSION()", "%AppName(ignored text)"])
+        if f < 0.78 and depth == 0:
+            return "%%random(%s)" % " ".join(rnd.sample(["r1", "r2", "r3"], rnd.randint(1, 3)))
+        if f < 0.86:
+            return "%%get(%s)" % gen_piece(rnd, env, depth + 1)
+        if f < 0.92:
+            return rnd.choice(["%get()", "%put(onlyone)", "%get(a b c)", "%put(a b c)"])
+        return "%%put(%s %s)" % (k, "(p)")
+    if unclaimed_ok:
+        return rnd.choice(["%", "%x", "%%", "'%get(ka)'", "${A", "$(", "%get(ka", "\"it's\"", "%get(\"ka\")", "%version )"])
+    return rnd.choice(WORDS)
+
+
+def gen_text(rnd, env, target, unclaimed_ok):
+    parts = []
+    n = 0
+    while n < target:
+        p = gen_piece(rnd, env, 0, unclaimed_ok and rnd.random() < 0.1)
+        if n + len(p) > 20479:
+            break
+        parts.append(p)
+        n += len(p)
+    s = "".join(parts)
+    return s.replace("`", "")
+
+
+def gen_traces(rnd, nscripts, nlong):
+    """scripts = histories of 1..4 expansions against one store: [(env, text), ...]"""
+    scripts = []
+    for k in range(nscripts):
+        big = k < nlong
+        hist = []
+        for _ in range(1 if big else rnd.randint(1, 4)):
+            env = gen_env(rnd, big and rnd.random() < 0.6)
+            if big:
+                target = rnd.choice([20479, 20479, 20400, 19000, 12000])
+            else:
+                target = rnd.choice([0, 5, 20, 60, 150, 400, 900])
+            t = gen_text(rnd, env, target, unclaimed_ok=(k % 5 == 4))
+            if big:
+                t = t.replace("%random(", "%get(ka")        # alternatives are not followed up to the limit
+            if big and rnd.random() < 0.5:
+                # finish exactly at / around the limit with constructs that matter there
+                tail = rnd.choice(["'\\x'", "\\n", "$A", "~", "%version()", "xyz", "'\\'"])
+                t = (t + "p" * 20479)[:20479 - len(tail) - rnd.choice([0, 0, 1, 2])] + tail
+                t = t[:20479]
+            hist.append((env, t))
+        scripts.append(hist)
+    return scripts
+
+
+def at_limit_family(tier):
+    """Deterministic texts whose ideal expansion ends exactly at, just below and just above the 20479-character limit
+    with each kind of construct as the last thing (results at and over the limit, DESIGN.md C10 'Beyond')."""
+    LIM = 20479
+    env = [("HOME", "/home/u"), ("A", "VALUE_7"), ("E", "")]
+    out = []
+    span = range(LIM - 2, LIM + 3) if tier == "quick" else range(LIM - 4, LIM + 6)
+    for cons, val in (("$A", "VALUE_7"), ("${A}", "VALUE_7"), ("~", "/home/u"), ("%version()", "1.2"), ("%appname()", "ap-1.2"),
+                      ("\\n", "\n"), ("'\\x'", "'\\x'"), ("\\", "\\"), ("$E", ""), ("q", "q")):
+        for T in span:
+            npl = T - len(val)
+            if npl + len(cons) > LIM:
+                continue
+            out.append([(env, "p" * npl + cons)])
+            if cons in ("$A", "~", "'\\x'"):
+                out.append([(env, "p" * (npl - 3) + cons + "xyz")])
+    # a value much longer than the room that is left, and expansion inside a call argument reaching the limit
+    big = [("HOME", "h" * 9000), ("A", "a" * 20479), ("B1", "b" * 20470)]
+    out.append([(big, "~~~")])
+    out.append([(big, "x$A")])
+    out.append([(big, "$A")])
+    out.append([(big, "$B1$B1")])
+    out.append([(big, "%put(ka $B1)%get(ka)12345678%get(ka)")])
+    out.append([(big, "%get(zz ~~~)")])
+    return out
+
+
 def trace_validation(ctx, exe):
-    pass
+    rnd = random.Random(ctx.seed + 10)
+    nscripts, nlong = (260, 10) if ctx.tier == "quick" else (6000, 80)
+    scripts = gen_traces(rnd, nscripts, nlong) + at_limit_family(ctx.tier)
+    keytok = tok([b(k) for k in sorted(TKEYS)])
+    texts = []
+    for sid, hist in enumerate(scripts, 1):
+        lines = ["S %d" % sid]
+        for env, t in hist:
+            lines.append("expand %s %s = ? ?" % (envtok(env), tok(b(t))))
+        lines.append("E")
+        texts.append("\n".join(lines) + "\n")
+    fails, recs, ns, nt = run_scripts(exe, ["aa", keytok], texts, ctx.rundir, jobs=4, tag="rec",
+                                      env={"ASAN_OPTIONS": asan_opts(170)})
+    bad = set()
+    for f in fails:
+        bad.add(f.sid)
+        env, t = scripts[f.sid - 1][min(f.step, len(scripts[f.sid - 1]) - 1)]
+        d = re.sub(r"\d+", "N", f.got) if f.kind == "inv" else f.sig
+        ctx.report("trace-recording expand [%s] %s/%s" % (kinds(b(t), env), f.kind, d),
+                   "recording a random text failed: %r; input %r env %r" % (f, t[:200], env),
+                   {"variant": "pass-aa", "harness_args": ["aa", keytok], "script_text": texts[f.sid - 1], "failure": repr(f), "detail": f.detail})
+    by = {}
+    for sid, step, ret, state in recs:
+        by.setdefault(sid, {})[step] = (ret, state)
+    events, index = [], []
+    for sid in sorted(by):
+        if sid in bad:
+            continue
+        hist = scripts[sid - 1]
+        if len(by[sid]) != len(hist):
+            raise Broken("recording of script %d is incomplete" % sid)
+        for step, (env, t) in enumerate(hist):
+            ret, state = by[sid][step]
+            if ret == "IMPURE":
+                ctx.report("trace-recording expand [%s] impure" % kinds(b(t), env),
+                           "the result differs between the two stack/heap fill patterns; input %r env %r" % (t[:200], env),
+                           {"variant": "pass-aa", "harness_args": ["aa", keytok], "script_text": texts[sid - 1]})
+                break
+            isnull = ret == "NULL"
+            got = [] if isnull else untok(ret)
+            st = untok(state)
+            events.append({"reset": step == 0, "env": [[b(k), b(v)] for k, v in env], "input": b(t), "isnull": isnull,
+                           "got": got, "store": st})
+            index.append((sid, step))
+    if not events:
+        raise Broken("no trace events recorded")
+    path = os.path.join(ctx.rundir, "trace-c10.ndjson")
+    with open(path, "w") as f:
+        for e in events:
+            f.write(json.dumps(e, separators=(",", ":")) + "\n")
+    verdicts = []
+    res = run_tlc("ExpandTrace.tla", "ExpandTrace.cfg", ctx.rundir, on_edge=verdicts.append, workers=1, timeout=2400,
+                  env={"TRACE": path}, coverage=False, extra=["-Xss64m"] if False else [])
+    if res.violation or not res.ok:
+        raise Broken("trace validation run failed (ExpandTrace): %s\n%s" % (res.violation, "\n".join(res.tail[-20:])))
+    uniq = {}
+    for v in verdicts:          # TLC may evaluate the observation of one step more than once; the copies must be identical
+        if uniq.setdefault(v["l"], v) != v:
+            raise Broken("contradictory verdicts for trace event %d" % v["l"])
+    verdicts = [uniq[k] for k in sorted(uniq)]
+    if len(verdicts) != len(events) or not any("TRACE_DONE" in x for x in res.tail):
+        raise Broken("trace validation consumed %d of %d events" % (len(verdicts), len(events)))
+    nclaimed = ntrunc = nmax = 0
+    why = {}
+    for v in verdicts:
+        sid, step = index[v["l"] - 1]
+        env, t = scripts[sid - 1][step]
+        ev = events[v["l"] - 1]
+        if v["claimed"]:
+            nclaimed += 1
+            ntrunc += 1 if v["trunc"] else 0
+            nmax = max(nmax, len(ev["got"]))
+        else:
+            why[v["why"]] = why.get(v["why"], 0) + 1
+        if not v["ok"]:
+            ctx.report("trace-rejected expand [%s]%s" % (kinds(b(t), env), " at-limit" if v["trunc"] or len(t) > 20000 else ""),
+                       "TLC (ExpandTrace) does not accept the recorded result of event %d: input(%d chars) %r... env %r got(%d chars) %r... store %r" % (
+                           v["l"], len(t), t[:120], [(k, x[:20]) for k, x in env], len(ev["got"]), text_of(ev["got"][:120]), ev["store"]),
+                       {"variant": "pass-aa", "harness_args": ["aa", keytok], "script_text": texts[sid - 1], "event_index": v["l"],
+                        "event": {k: (x if k not in ("input", "got") or len(x) < 400 else x[:400]) for k, x in ev.items()}})
+    ctx.add("trace_events_validated", len(verdicts))
+    ctx.add("traces_validated_against_impl", len(by) - len(bad))
+    ctx.cov["trace"] = {"scripts": len(scripts), "events": len(events), "events_claimed": nclaimed, "events_truncated_at_limit": ntrunc,
+                        "longest_input": max(len(e["input"]) for e in events), "longest_result": nmax,
+                        "events_unclaimed_by_reason": why, "tlc_wall_s": round(res.wall, 1), "tlc_states": res.distinct}
+    ctx.sample({"trace_event": {"input": text_of(events[0]["input"])[:160], "got": text_of(events[0]["got"])[:160]}})
 
 
 def run(ctx):
